@@ -109,6 +109,17 @@ let step line =
         w_a = nat a.(11); w_b = nat a.(12); w_c = nat a.(13); w_d = nat a.(14) } in
       let s = !st in st := { s with rows = s.rows @ [(g, opt_fr a.(15))] }
   | ["setw"; i; v] -> set_wit (int_of_string i) (fr v)
+  | "T" :: name :: rest when List.length rest = 22 ->
+      let a = Array.of_list (List.map fr rest) in
+      let g : gate = { q_m = a.(0); q_l = a.(1); q_r = a.(2); q_o = a.(3); q_f = a.(4); q_c = a.(5);
+        q_arith = a.(6); q_range = a.(7); q_logic = a.(8); q_fixed = a.(9); q_var = a.(10);
+        w_a = O; w_b = O; w_c = O; w_d = O } in
+      let w : wires = { va = a.(15); vb = a.(16); vc = a.(17); vd = a.(18) } in
+      let n : wires = { va = a.(19); vb = a.(20); vc = fzero; vd = a.(21) } in
+      let vals = [ t_arith g w; t_range g w n a.(11); t_logic g w n a.(12);
+                   t_fixed g w n a.(13); t_var g w n a.(14) ] in
+      Printf.printf "T %s %s\n" name
+        (String.concat " " (List.concat_map (fun v -> let h = hex_of_fr v in [h; h; h]) vals))
   | ["snap"] -> snap ()
   | ["sat"] -> sat ()
   | _ -> Printf.printf "ERR unknown op: %s\n" line
